@@ -728,6 +728,16 @@ func c10MetaKept(c *Ctx, rule string) {
 			if k, ok := ir.ConstStr(ir.Unwrap(call.Call.Args[1])); !ok || k != "_meta" {
 				return
 			}
+			// the params of a message being BUILT (a map handed in by the caller); a scratch map a decoder filled from the
+			// wire is taken apart as the decoder sees fit
+			if u, ok := call.Call.Args[0].(*ssa.UnOp); ok {
+				if _, local := u.X.(*ssa.Alloc); local {
+					return
+				}
+			}
+			if _, isMake := call.Call.Args[0].(*ssa.MakeMap); isMake {
+				return
+			}
 			n++
 			taken := false
 			for _, g := range flow.Guards(fn, call.Block()) {
